@@ -1,5 +1,5 @@
 """C11 -- the multiprocessing solver equals the sequential solver for every interleaving (reducer shape)."""
-from ..rules import dispatch, counters, optimize, process
+from ..rules import dispatch, counters, optimize, process, search
 
 EXPLANATION = (
     "Static analysis of the reducer's shape: each worker exit path sends exactly one completion marker (worker id, None, statistics) as its last message and none from an iteration that goes on; the parent's counter starts at len(solvers), is decremented exactly on a marker, the loop runs exactly while it is positive and is not left early; every solution message is yielded once unmodified / compared with cmp(new[v], incumbent[v]) and kept iff there is no incumbent or cmp holds; minimize<->('minimize_and_queue', lt), maximize<->('maximize_and_queue', gt); each message overwrites the statistics slot of its own worker; processes are started with their own index and the shared queue. Order-independence follows from this shape; equality with the sequential multiset needs C02/C12. Also: a per-worker 'finished' list consulted by the liveness test is created all-false inside the call and set on the marker path; the 13 aggregated statistics use sum (max for depth) of the counter with the same name."
@@ -14,3 +14,4 @@ def check(ctx, prog):
     optimize.rule_tighten(ctx, prog)  # scope: the *_and_queue worker entry points
     process.rule_liveness(ctx, prog)  # scope: no join of a worker that may still be writing (the call returns once every worker has finished)
     dispatch.rule_dispatch(ctx, prog)  # scope: the function addresses are taken per call in the process that uses them
+    search.rule_resume(ctx, prog)  # scope: a worker delivers every solution of its part exactly once
